@@ -10,11 +10,13 @@ import sys
 
 V = "/verif"
 runs = {}
+first = {}
 for f in sorted(glob.glob(os.path.join(V, "seeded", "matrix*.txt"))):
     for ln in open(f):
-        m = re.match(r"(\S+) check=(\S+) exit=(\d+) (\d+)s \|\s*(.*)", ln)
+        m = re.match(r"(\S+) check=(\S+) exit=(\d+) (?:(\d+)s|\([^)]*\)) \|\s*(.*)", ln)
         if m:
-            runs[(m.group(1), m.group(2))] = (int(m.group(3)), int(m.group(4)), m.group(5).strip())
+            runs[(m.group(1), m.group(2))] = (int(m.group(3)), int(m.group(4) or 0), m.group(5).strip())
+            first.setdefault((m.group(1), m.group(2)), int(m.group(3)))
 
 rows = []
 for d in sorted(glob.glob(os.path.join(V, "seeded", "C*_*"))):
@@ -36,6 +38,9 @@ for d in sorted(glob.glob(os.path.join(V, "seeded", "C*_*"))):
         verdict = "missed"
     else:
         verdict = "inconclusive (exit 2)"
+    f0 = first.get((sid, prop))
+    if own is not None and f0 is not None and f0 != own[0]:
+        verdict = {0: "first run: missed", 2: "first run: inconclusive (exit 2)", 1: "first run: caught"}.get(f0, "first run: exit %s" % f0) + "; after strengthening " + verdict
     others = ", ".join(c for c in det if c != prop) or "—"
     rows.append("| %s | %s | %s | %s |" % (sid, note, verdict, others))
 
